@@ -10,6 +10,7 @@
 From Coq Require Import ZArith List Bool.
 From V Require Import rcache.PyList rcache.RCacheModel rcache.RCacheSpec rcache.RQueryModel
   rcache.RQuerySpec rcache.RCacheThm.
+From V Require Import rcache.RGenBase gen.RCacheGen rcache.RCacheGenThm.
 Import ListNotations.
 Open Scope Z_scope.
 
@@ -131,6 +132,30 @@ Theorem C11_invalidate_live_iterator_refuted :
                t_res th' = Some (Raise ETypeError)).
 Proof. exact invalidate_live_iterator_refuted. Qed.
 Print Assumptions C11_invalidate_live_iterator_refuted.
+
+(* ---- the model is the code: gen/RCacheGen.v is REGENERATED from /repo/src/dateutil/rrule.py by
+   harness/gen_rcache.py on every run: _iter_cached as one instruction per source line (line offset, kind,
+   jump targets), _invalidate_cache / __init__ as shared-state functions.  Interpreting the generated table
+   with the generic meaning of each instruction IS the hand-written step function (code after bb46216, with
+   or without a raising generator), for every state, thread and program counter that is a line of
+   _iter_cached -- the "source line -> pc" correspondence is checked, not trusted *)
+Theorem C11_gen_table_is_model : forall seq raises s t th k,
+  line_of_pc (t_pc th) = Some k ->
+  table_step seq raises gen_iter_cached s t th = line_step seq raises s t th.
+Proof. exact gen_table_is_model. Qed.
+Print Assumptions C11_gen_table_is_model.
+
+Theorem C11_gen_batch_is_model : lookup gen_iter_cached 13 = Some (IFor batch 20).
+Proof. exact gen_batch_is_model. Qed.
+Print Assumptions C11_gen_batch_is_model.
+
+Theorem C11_gen_invalidate_is_model : forall st, St (gen_invalidate (sh st)) (thr st) = invalidate st.
+Proof. exact gen_invalidate_is_model. Qed.
+Print Assumptions C11_gen_invalidate_is_model.
+
+Theorem C11_gen_init_is_model : forall s, gen_init s = init_shared.
+Proof. exact gen_init_is_model. Qed.
+Print Assumptions C11_gen_init_is_model.
 
 (* the code before bb46216 (`false`) deadlocks: two iterators over a 10-element rule *)
 Theorem C11_prefix_code_no_deadlock_refuted :
